@@ -19,6 +19,7 @@ GENERATORS = [
     ("GenFactsBuild.v", "tr_facts:generate_build"),
     ("GenFactsSession.v", "tr_facts:generate_session"),
     ("GenIdentity.v", "tr_identity"),
+    ("GenPar.v", "tr_par"),
 ]
 
 
